@@ -74,3 +74,11 @@ def rlp_receipt(maxlen=2000):
 def byte_string_1_33():
     return st.one_of(st.binary(min_size=1, max_size=33), st.binary(min_size=32, max_size=33),
                      st.sampled_from([b"\x00", b"\x01", b"\x00" + b"\xff" * 32]))
+
+
+def textlike_head32():
+    """32 bytes that begin with characters of the text headers they follow without a delimiter
+    in the signed messages (version digits, dots, colons, letters)."""
+    return st.tuples(st.lists(st.sampled_from(list(b"0123456789.:HSMUIabcx")), min_size=1,
+                              max_size=4), st.binary(min_size=32, max_size=32)).map(
+        lambda t: (bytes(t[0]) + t[1])[:32])
